@@ -213,6 +213,31 @@ def checkCdtCase (rings : List (List Pt)) (tris : List Tri) : String :=
       | some t => s!"FAIL centroid-outside tri={showTri t}"
       | none => "FAIL unknown"
 
+/-- the non-empty component polygons of a collection input, in the order of `PolygonExtracter` (depth first); members of
+other types are ignored by the triangulator -/
+partial def polysOf : G → List (List (List Bits2))
+  | .polygon sh hs => if sh.pts.isEmpty then [] else [seqBits sh :: hs.map seqBits]
+  | .multiPolygon gs => gs.flatMap polysOf
+  | .collection gs => gs.flatMap polysOf
+  | _ => []
+
+/-- collection input: the verdict is `isCDTOfCollection`; the diagnosis names the first triangle without a unique owner or
+the first component whose group fails, with the single-polygon diagnosis of that group -/
+def checkCdtCollection (polys : List (List (List Pt))) (tris : List Tri) : String :=
+  if isCDTOfCollection polys tris then "ok"
+  else
+    match firstBad tris (fun t => (polys.filter (fun rings => ownedBy rings t)).length == 1) with
+    | some t =>
+      let k := (polys.filter (fun rings => ownedBy rings t)).length
+      s!"FAIL triangle-owned-by-{k}-components tri={showTri t}"
+    | none =>
+      let idx := (List.range polys.length).zip polys
+      match idx.find? (fun ir => !(isCDTOf ir.2 (trisIn ir.2 tris) && isConstrainedDelaunay (trisIn ir.2 tris))) with
+      | some (i, rings) =>
+        let r := checkCdtCase rings (trisIn rings tris)
+        (if r.startsWith "FAIL " then r else "FAIL unknown") ++ s!" component={i}"
+      | none => "FAIL unknown"
+
 def cdt (line : String) : String :=
   match Driver.tokens line with
   | "C" :: r =>
@@ -220,18 +245,39 @@ def cdt (line : String) : String :=
     | some (inp, r) =>
       match parseOut "T" r with
       | some (some tg, []) =>
-        match ringsOf inp.g, trisOf tg with
-        | some rb, some tb =>
-          match scaleGroups [] (rb ++ tb) with
-          | some (e0, _, all) =>
-            let rings := all.take rb.length
-            match (all.drop rb.length).mapM mkTri with
-            | some tris =>
-              let res := checkCdtCase rings tris
-              if res == "ok" then "ok" else s!"{res} unit=2^{e0}"
-            | none => "FAIL triangle-ring-not-closed"
-          | none => "FAIL non-finite-ordinate"
-        | _, _ => "FAIL output-shape"
+        match inp.g with
+        | .polygon _ _ =>
+          match ringsOf inp.g, trisOf tg with
+          | some rb, some tb =>
+            match scaleGroups [] (rb ++ tb) with
+            | some (e0, _, all) =>
+              let rings := all.take rb.length
+              match (all.drop rb.length).mapM mkTri with
+              | some tris =>
+                let res := checkCdtCase rings tris
+                if res == "ok" then "ok" else s!"{res} unit=2^{e0}"
+              | none => "FAIL triangle-ring-not-closed"
+            | none => "FAIL non-finite-ordinate"
+          | _, _ => "FAIL output-shape"
+        | _ =>
+          match trisOf tg with
+          | some tb =>
+            let pb := polysOf inp.g
+            let ringGroups := pb.flatMap id
+            match scaleGroups [] (ringGroups ++ tb) with
+            | some (e0, _, all) =>
+              -- regroup the scaled rings by component
+              let rec regroup : List (List (List Bits2)) → List (List Pt) → List (List (List Pt))
+                | [], _ => []
+                | c :: cs, rest => rest.take c.length :: regroup cs (rest.drop c.length)
+              let polys := regroup pb (all.take ringGroups.length)
+              match (all.drop ringGroups.length).mapM mkTri with
+              | some tris =>
+                let res := checkCdtCollection polys tris
+                if res == "ok" then "ok" else s!"{res} unit=2^{e0}"
+              | none => "FAIL triangle-ring-not-closed"
+            | none => "FAIL non-finite-ordinate"
+          | none => "FAIL output-shape"
       | some (none, []) => "FAIL impl-error"
       | _ => "bad-line"
     | none => "bad-line"
